@@ -17,10 +17,11 @@ namespace W
 /-- Tokenise into "(", ")" and atoms. -/
 def tokens (s : String) : List String :=
   let (acc, cur) := s.toList.foldl (init := (([] : List String), ([] : List Char))) fun (acc, cur) c =>
-    let flush := if cur.isEmpty then acc else String.ofList cur.reverse :: acc
-    if c == '(' then ("(" :: flush, []) else
-    if c == ')' then (")" :: flush, []) else
-    if c == ' ' || c == '\t' || c == '\n' || c == '\r' then (flush, []) else
+    -- (flush is a thunk: it must not be evaluated for ordinary characters, or tokenising is quadratic)
+    let flush := fun (_ : Unit) => if cur.isEmpty then acc else String.ofList cur.reverse :: acc
+    if c == '(' then ("(" :: flush (), []) else
+    if c == ')' then (")" :: flush (), []) else
+    if c == ' ' || c == '\t' || c == '\n' || c == '\r' then (flush (), []) else
     (acc, c :: cur)
   (if cur.isEmpty then acc else String.ofList cur.reverse :: acc).reverse
 
